@@ -65,8 +65,25 @@ def header_of(fmt, text):
     return [h.get("type"), h.get("version")]
 
 
+_WARM = {}
+
+
+def _warm_up(fmt):
+    """Another reader of the same class loads and writes a CURRENT-format file first (in a run this happens anyway through the
+    previous document's re-load; doing it explicitly makes a single replayed case see the same process state): version gates
+    remembered per class or per module must not leak into the next reader."""
+    if fmt not in _WARM:
+        from mc.build import misc as MISC
+        _WARM[fmt] = {"ci": lambda: CI.build(CI.seed_forest()).dumps(), "im": lambda: IM.build(IM.seed_v11()).dumps(),
+                      "ti": lambda: TI.dumps(TI.build(TI.seed_nested())), "rpms": lambda: MISC.rpms().dumps()}[fmt]()
+    other = new(fmt)
+    call(other.loads, _WARM[fmt])
+    call(dumps, fmt, other)
+
+
 def upgrade(fmt, text, expected=None, via_json=False):
     """Load an older document, judge the conversion.  -> {"load": "rejected"} or {"load": "ok", "problems": [...]}"""
+    _warm_up(fmt)
     obj = new(fmt)
     r = call(obj.loads, text)
     if r[0] != "ok":
